@@ -9,6 +9,10 @@ CLAIMED = {
    text="Lean 4 theorems over a regex AST with an executable position-set matcher: for every regex and every string an unanchored search for ^(?:p)$ succeeds iff p matches the whole string (C06_anchoring is stated for the wrap *extracted from compile_filters on this run*, so it stops checking if the wrap changes); apply_filters = root exempt, last matching filter decides, default = opposite of the first sign. Tie: the real compile_filters + apply_filters vs the model on grammar-generated (filter list, path) pairs, plus an independent whole-path oracle (\\A(?:p)\\z through the regex crate) that also judges out-of-subset syntax. 'Hidden entries are never read' and 'same verdict on both sides' are carried by the walker/boss models (C17, C02).",
    note="Trusted: Lean kernel; the regex crate's semantics (also the oracle's engine); the AST-level model of text concatenation precedence (validated by the differential stream); extraction of the wrap strings.",
    technique="Lean 4 proof (matcher lemmas, fold lemma) over extracted wrap + L1 differential with independent oracle", design="§3 C06"),
+ 'C10': dict(
+   text="Lean 4 theorems with the AEAD as a parameter with laws (correctness, ciphertext integrity, nonce binding; a toy instance shows satisfiability): for every sent history, key and adversarial delivery sequence whose openable frames were made by the two honest ends, the receiving application is handed a prefix of what the other end sent (exactly once, in order); nothing is delivered after the first bad frame; a peer without the key gets nothing delivered; nonces determine (direction, index). C10_nonce_config pins the nonce step (the increment must be *stored*) and the four parities to what is extracted from the source on this run. Tie: two real AsyncEncryptedComms ends over loopback TCP with the harness as the network applying generated and systematic manipulation scripts (delivered indices = model = independent prefix oracle; key-stream reuse detected from the wire), and a real --doer process contacted with wrong-key frames / raw bytes (tree unchanged, process exits).",
+   note="Trusted: Lean kernel; AES-128-GCM as an ideal AEAD (computational assumption, not provable here); OsRng; TCP in-order delivery; extraction of nonce step/parities.",
+   technique="Lean 4 proof (induction over the delivered sequence, AEAD laws as structure fields) over extracted nonce discipline + real-link MITM correspondence", design="§3 C10"),
  'C11': dict(
    text="Lean 4 theorems: the look-ahead chunk reader emits, for every file length and every short-read schedule, chunks whose concatenation is the file, exactly the last one flagged 'no more', none empty, all within the maximum; the boss's chunk relay succeeds iff the stream is terminated and totals the listed size (any growth/shrink => error) and forwards exactly the consumed chunks with the time stamp on the last; the largest chunk fits the frame buffers (constants extracted from the source on every run). Tie: real GetFileContent / CreateOrUpdateFile on real files of every boundary length (chunk sequence = model, CRC per chunk, bytes+mtime read back) and the real sync() relaying scripted growing/shrinking sources.",
    note="Trusted: Lean kernel; host read(2)/write(2) (regular files give full reads: short-read schedules are covered by the theorem only); extraction of the four chunk constants and the buffer size; differential tie bounded by the lengths listed in the evidence.",
